@@ -476,10 +476,18 @@ func constNud(p *parser, t *token) *token {
 		t.Append(plural(symAtPos(t.Pos, ",")))
 		t.Append(plural(symAtPos(t.Pos, ",")))
 		p.Advance("(")
-		var prev *token
+		var prev, prevType *token
 		for p.Token.Symbol != ")" {
 			if decl := getDecl(p, kind); decl != nil {
 				for _, tt := range plural(decl.Tokens[0]).Tokens {
+					if len(decl.Tokens) > 1 { // Red Color = iota: the lines that repeat the expression repeat the type
+						prevType = nil
+						if len(tt.Tokens) > 0 {
+							prevType = tt.Tokens[0]
+						}
+					} else if prevType != nil && len(tt.Tokens) == 0 {
+						tt.Append(prevType.Copy())
+					}
 					t.Tokens[0].Append(tt)
 				}
 				if len(decl.Tokens) > 1 {
